@@ -14,6 +14,10 @@ ERRC = {1: "IndexError", 2: "ValueError", 3: "TypeError", 4: "WidgetError", 5: "
 ALPHA = ["a", "b", " ", "\n", "世", "́"]      # letter, letter, space, newline, double-width, zero-width
 
 
+# the encodings urwid.util.set_encoding maps to the 'wide' byte encoding; every other non-utf-8 one is 'narrow'
+WIDE_ENCODINGS = {"euc-jp", "euc-kr", "euc-cn", "euc-tw", "gb2312", "gbk", "big5", "cn-gb", "uhc", "eucjp", "euckr", "euccn", "euctw", "cncb"}
+
+
 def _wc(ch):
     """Independent character width (the wcwidth package, not urwid)."""
     import wcwidth
@@ -54,8 +58,8 @@ def units(case):
 
 class C03(core.Check):
     pid = "C03"
-    gen_modules = ["str_util", "wcwidth_table"]   # only for the PROOF cone (C11's Model/Width.v under Proofs/TextLayoutBytes*.v); the extracted models use no generated file
-    model_targets = ["theories/Model/TextLayout.vo", "theories/Model/TextLayoutBytes.vo"]
+    gen_modules = ["str_util", "wcwidth_table", "str_loops"]   # only for the PROOF cone (C11's Model/Width.v under Proofs/TextLayoutBytes*.v); the extracted models use no generated file
+    model_targets = ["theories/Model/TextLayout.vo", "theories/Model/TextLayoutBytes.vo", "theories/Model/TextLayoutModes.vo"]
     prop_file = "theories/Properties/C03.v"
     extract_v = "Extract/C03X.v"
     allowed_axioms = set()
@@ -206,6 +210,21 @@ class C03(core.Check):
             raw = list(case["text"].encode("utf-8"))
             return ([1, WRAPS.index(case["wrap"]), ALIGNS.index(case["align"]), case["width"], len(chars)] + tbl
                     + [len(raw)] + raw + [len(ell)] + [ord(c) for c in ell])
+        if case["mode"] == "bytes":
+            # bytes text under a 'wide' (double-byte) or 'narrow' (single-byte) encoding: Model/TextLayoutModes.v
+            # (wire mode 2 / 3).  The codec is not modelled: the natural width of the decoded text is an input.
+            from urwid import str_util
+            enc = case["enc"]
+            wide = enc.lower() in WIDE_ENCODINGS
+            raw = list(case["text"].encode(enc))
+            natw = max(sum(str_util.get_char_width(c) for c in ln) for ln in case["text"].split("\n"))
+            ell = ellipsis_for(enc)
+            out = [2 if wide else 3, WRAPS.index(case["wrap"]), ALIGNS.index(case["align"]), case["width"], natw, len(raw)] + raw
+            out.append(len(ell))
+            for ch in ell:
+                b = list(ch.encode(enc))
+                out += [len(b)] + b
+            return out
         if case["mode"] != "str":
             return None
         if case["enc"] == "utf-8":
@@ -755,13 +774,16 @@ class C03(core.Check):
         """bytes / other encodings: oracle only (and the str+ascii ellipsis '...' against the model too)"""
         for _ in range(count):
             n = rng.choice([0, 1, 2, 3, 4, 5, 6, 8, 12, 20])
-            kind = rng.choice(["utf8b", "eucjp", "eucjp_str", "ascii", "ascii_str"])
+            kind = rng.choice(["utf8b", "eucjp", "eucjp_str", "ascii", "ascii_str", "latin1"])
             if kind == "utf8b":
                 pool = "ab \n世́x\U0001F600\U00020000\u2028\r"
                 enc, mode = "utf-8", "bytes"
             elif kind in ("eucjp", "eucjp_str"):
                 pool = "ab \n世あx"
                 enc, mode = "euc-jp", ("bytes" if kind == "eucjp" else "str")
+            elif kind == "latin1":
+                pool = "ab \nx\xe9\xff\xa0~@"
+                enc, mode = "latin-1", "bytes"
             else:
                 pool = "ab \nxyz "
                 enc, mode = "ascii", ("bytes" if kind == "ascii" else "str")
